@@ -9,6 +9,7 @@ every table.
 import XV.Model.Decode
 import XV.Spec.Dis
 import XV.Spec.OpTables
+import XV.Props.C04Labels
 namespace XV.Props.C04
 open XV XV.Model XV.Model.Decode
 
@@ -69,7 +70,7 @@ def labelFormWord (t : OpTable) (cache313 : List (Str × Nat)) (op : Nat) : JFor
     let nm := t.opnameOf op
     let m : Int := (if verGe t.version 3 11 && isInfix jbName nm then -1 else 1) * (if verGe t.version 3 10 then 2 else 1)
     let k : Int := 2 + (if verGe t.version 3 13 then 2 * (cacheSize cache313 nm : Int)
-                        else if verGe t.version 3 12 && (nm == forIterName || nm == sendName) then 2 else 0)
+                        else if verGe t.version 3 12 && (Str.eqb nm forIterName || Str.eqb nm sendName) then 2 else 0)
     .rel m k
   else if t.isJabs op then .abs (if verGe t.version 3 10 then 2 else 1)
   else .none
@@ -160,5 +161,95 @@ theorem C04_flag (labels : List Int) (off : Nat) : (labels.contains (off : Int))
 example : (disTblFor Gen.opcode_312).map (fun d => targetForm d 93) = some (.rel 2 4) ∧
           (disTblFor Gen.opcode_311).map (fun d => targetForm d 140) = some (.rel (-2) 2) ∧
           (disTblFor Gen.opcode_27).map (fun d => targetForm d 110) = some (.rel 1 3) := by decide +kernel
+
+/-! ### the unbounded label theorem on the real tables (eras without inline caches) -/
+
+theorem tgtPre_form (t : OpTable) (off op a : Nat) : tgtPre t off op a = (labelFormPre t op).eval off a := by
+  unfold tgtPre labelFormPre
+  by_cases h1 : t.isJrel op = true
+  · simp [h1, JForm.eval]
+  · by_cases h2 : t.isJabs op = true
+    · simp [h1, h2, JForm.eval]
+    · simp [h1, h2, JForm.eval]
+
+theorem tgtWord_form (t : OpTable) (c : List (Str × Nat)) (off op a : Nat) :
+    tgtWord t c off op a = (labelFormWord t c op).eval off a := by
+  unfold tgtWord labelFormWord
+  by_cases h1 : t.isJrel op = true
+  · simp only [h1, if_true, JForm.eval]
+    congr 1
+    repeat' split
+    all_goals omega
+  · by_cases h2 : t.isJabs op = true
+    · simp only [h1, h2, if_true, Bool.false_eq_true, if_false, JForm.eval]
+      congr 1
+      repeat' split
+      all_goals omega
+    · simp [h1, h2, JForm.eval]
+
+def labelFacts (t : OpTable) (d : Spec.Dis.DisTbl) : Bool :=
+  ((List.range 256).all fun op =>
+    (t.hasArg op == decide (op ≥ d.haveArgument)) &&
+    ((t.extendedArg == some op) == (d.extendedArg == some op)) &&
+    (isExtName t op == (d.extendedArg == some op)) &&
+    (!(t.extendedArg == some op) || Nat.beq (t.extShift.getD 0) (if py36 t then 8 else 16)) &&
+    (labelForm t op == some (targetForm d op))) &&
+  !(verGe d.version 3 11) && !(verGe d.version 3 12) && (py36 t == verGe d.version 3 6) &&
+  (verLt t.version 3 10 == !(verGe d.version 3 10)) && ((t.findlabels == wordFindlabels) == py36 t)
+
+def labelFactsOk (t : OpTable) : Bool :=
+  match disTblFor t with
+  | none => false
+  | some d => verGe d.version 3 11 || labelFacts t d
+
+theorem C04_label_tables_all : Gen.allTables.all labelFactsOk = true := by decide +kernel
+
+/-- C04_labels: on every opcode table of a version before 3.11 that xdis ships, for every byte
+    string of any length, the label list `opc.findlabels` returns is `dis.findlabels` of that
+    CPython (3.10: provided no EXTENDED_ARG prefix is pending at an operand-less opcode) -/
+theorem C04_labels (t : OpTable) (ht : t ∈ Gen.allTables) (d : Spec.Dis.DisTbl) (hd : disTblFor t = some d)
+    (h11 : verGe d.version 3 11 = false) (code : Bytes) (hbytes : C02.IsBytes code)
+    (hc : verGe d.version 3 10 = true → C02.CarryOk t code) :
+    (Decode.findlabels t Gen.cacheSize313 code).map Except.toOption = some (Spec.Dis.findlabels d code) := by
+  have h := List.all_eq_true.mp C04_label_tables_all t ht
+  simp only [labelFactsOk, hd, h11, Bool.false_or] at h
+  simp only [labelFacts, Bool.and_eq_true, List.all_eq_true, List.mem_range, Bool.or_eq_true,
+    Bool.not_eq_true', beq_iff_eq] at h
+  obtain ⟨⟨⟨⟨⟨hall, h311⟩, h312⟩, hera⟩, hver⟩, hbind⟩ := h
+  have lk : LabelOk t d := by
+    refine ⟨fun op hop => (hall op hop).1.1.1.1, fun op hop => (hall op hop).1.1.1.2,
+      fun op hop => (hall op hop).1.1.2, ?_, h311, h312⟩
+    intro op hop hx
+    rcases (hall op hop).1.2 with h | h
+    · rw [hx] at h; cases h
+    · exact Nat.eq_of_beq_eq_true h
+  have hform : ∀ op, op < 256 → labelForm t op = some (targetForm d op) := fun op hop => (hall op hop).2
+  unfold Decode.findlabels
+  by_cases hw : (t.findlabels == wordFindlabels) = true
+  · have h6 : py36 t = true := by rw [← hbind, hw]
+    simp only [hw, if_true, Option.map_some]
+    congr 1
+    apply C04_labels_word t Gen.cacheSize313 d code lk hbytes h6 (by rw [← hera, h6]) hver hc
+    intro off op a hop
+    have := hform op hop
+    simp only [labelForm, hw, if_true, Option.some.injEq] at this
+    rw [tgtWord_form, target_form, this]
+  · have h6 : py36 t = false := by
+      have : (t.findlabels == wordFindlabels) = false := by simpa using hw
+      rw [← hbind, this]
+    have hf := fun op hop => hform op hop
+    have hcross : (t.findlabels == crossFindlabels && verLt t.version 3 10) = true := by
+      have := hform 0 (by omega)
+      simp only [labelForm, hw, Bool.false_eq_true, if_false] at this
+      by_cases hcr : (t.findlabels == crossFindlabels && verLt t.version 3 10) = true
+      · exact hcr
+      · simp [hcr] at this
+    simp only [hw, Bool.false_eq_true, if_false, hcross, if_true, Option.map_some]
+    congr 1
+    apply C04_labels_pre t d code lk hbytes h6 (by rw [← hera, h6])
+    intro off op a hop
+    have := hform op hop
+    simp only [labelForm, hw, Bool.false_eq_true, if_false, hcross, if_true, Option.some.injEq] at this
+    rw [tgtPre_form, target_form, this]
 
 end XV.Props.C04
